@@ -147,14 +147,17 @@ theorem disjunctionOnTarget_noWrites (ss : Schemas) (o : Opt) (idx : Nat) (targe
 theorem disjunctionAsOptionsAction_noWrites (idx : Int) (ss : Schemas) (o : Opt) (out : ActOut)
     (h : disjunctionAsOptionsAction idx ss o = .ok out) : out.writes = [] := by
   unfold disjunctionAsOptionsAction at h
-  by_cases hneg : idx < 0
-  · simp [hneg, unchanged] at h; subst h; rfl
-  · simp only [hneg] at h
-    cases ht : o.args[idx.toNat]? with
-    | none => simp [ht, unchanged] at h; subst h; rfl
-    | some target =>
-      simp only [ht] at h
-      exact disjunctionOnTarget_noWrites ss o idx.toNat target out (by simpa using h)
+  by_cases he : o.args.isEmpty = true
+  · simp [he, unchanged] at h; subst h; rfl
+  · simp only [he] at h
+    by_cases hneg : idx < 0
+    · simp [hneg, unchanged] at h; subst h; rfl
+    · simp only [hneg] at h
+      cases ht : o.args[idx.toNat]? with
+      | none => simp [ht, unchanged] at h; subst h; rfl
+      | some target =>
+        simp only [ht] at h
+        exact disjunctionOnTarget_noWrites ss o idx.toNat target out (by simpa using h)
 
 theorem addAssignmentAction_noWrites (va : VAssignment) (ss : Schemas) (b : Builder) (o : Opt) (out : ActOut)
     (h : addAssignmentAction va ss b o = .ok out) : out.writes = [] := by
